@@ -9,4 +9,7 @@ void  sluv_alloc_reset(void);
 void  sluv_alloc_fail_from(long k);   /* request number k (1-based) and every later one return NULL; 0 = never */
 long  sluv_alloc_count(void);
 long  sluv_alloc_failed(void);
+void  sluv_alloc_fail_size(long bytes);
+long  sluv_alloc_live(void);
+long  sluv_alloc_maxreq(void);
 #endif
